@@ -540,6 +540,7 @@ def run(rep, tier):
         clause_escape_carry(facts, rep, {'K1': ('::avx2::',), 'K3': ('::sse::',), 'K4': ('::avx2::', '::sse::')}[cfg])
         from . import c15
         c15.clause_f(facts, rep)   # SkipString's quote/backslash masks must not carry bits above the lane count
+        c11.clause_shift(facts, rep, {'K1': ('::avx2::',), 'K3': ('::sse::',), 'K4': ('::avx2::', '::sse::')}[cfg])
     rep.trust('clang 14 front end')
     rep.assumptions += [
         'decides only: wrong-kind step and negative index yield an error, an index past the end of an array is noticed at the closing bracket, escaped keys are decoded before comparison whenever they could match, errors are negated, slice cleared on error, target parsed only on success',
